@@ -111,10 +111,16 @@ Section CancelProgram.
     induction n as [|n IH]; intros acts inr stk m cs x cs' HI H.
     - cbn in H. inversion H; subst. split; [exact HI|apply ext_refl].
     - cbn [Cancel.exec_actions] in H.
+      destruct (poll cs) as [stop cs0] eqn:Ep. pose proof (poll_inv _ _ _ HI Ep) as Hp.
+      destruct stop.
+      { destruct Hp as (Hpost & Hcl & Hext). inversion H; subst. split; [split; assumption|exact Hext]. }
+      destruct Hp as (HI2 & Hext2 & _).
+      remember (tick cs0) as cs2 eqn:Ecs2. clear Ecs2 Ep cs0.
       destruct (io_next_line IO (ms m)) as [s [[line|]|e]];
-        try (inversion H; subst; split; [exact HI|apply ext_refl]).
-      destruct (run_rules f acts inr stk (with_ms m (io_set_record IO s line)) cs) as [[o inr'] cs1] eqn:Er.
-      destruct (run_rules_inv _ _ _ _ _ _ _ _ _ HI Er) as (Hg & He).
+        try (inversion H; subst; split; [exact HI2|exact Hext2]).
+      destruct (run_rules f acts inr stk (with_ms m (io_set_record IO s line)) cs2) as [[o inr'] cs1] eqn:Er.
+      destruct (run_rules_inv _ _ _ _ _ _ _ _ _ HI2 Er) as (Hg & He).
+      assert (He0 : ext cs cs1) by (eapply ext_trans; eassumption).
       destruct o as [stk' m'|stk' m'|r].
       + destruct (IH _ _ _ _ _ _ _ Hg H) as (Hg2 & He2). split; [exact Hg2|eapply ext_trans; eassumption].
       + destruct (IH _ _ _ _ _ _ _ Hg H) as (Hg2 & He2). split; [exact Hg2|eapply ext_trans; eassumption].
